@@ -186,7 +186,13 @@ def facts(U, root):
                     if k in ("string", "char"): return {"string"}
                     if k == "bool": return {"boolean"}
                     if k == "unit": return {"null"}
-                    if k == "option": return classes(te[1], fuel - 1) | {"null"}
+                    if k == "option":
+                        # Option<Named> is schemars' `anyOf [$ref, null]`: util.rs schemas_mutually_exclusive cannot see through a
+                        # reference INSIDE a subschema (instance_type: None => "not exclusive"), whatever the other branch is
+                        inner = te[1]
+                        while inner[0] == "box": inner = inner[1]
+                        if inner[0] == "ref": return {"*"}
+                        return classes(te[1], fuel - 1) | {"null"}
                     if k == "box": return classes(te[1], fuel - 1)
                     if k in ("vec", "set", "array", "tuple"): return {"array"}
                     if k == "map": return {"object"}
